@@ -165,6 +165,26 @@ Theorem c09_ack_pops_head_only : forall (o : outgoing) (pkid : N) (o' : outgoing
   end.
 Proof. exact register_ack_head. Qed.
 
+(** an acknowledgement for anything but the head leaves the window / the pending releases as they
+    are (the repaired iobufs.rs; before, the head was popped first) *)
+Theorem c09_ack_mismatch : forall (o : outgoing) (pkid : N),
+  match o_inflight o with [] => True | h :: _ => pkid <> pkid_of h end ->
+  register_ack o pkid = (o, false).
+Proof. exact register_ack_mismatch. Qed.
+
+Theorem c09_pubcomp_mismatch : forall (o : outgoing) (pkid : N),
+  match o_pubrels o with [] => True | h :: _ => pkid <> h end ->
+  register_pubcomp o pkid = (o, false).
+Proof. exact register_pubcomp_mismatch. Qed.
+
+Theorem c09_unsolicited_keeps_window : forall (st : rstate) (id : N) (client : str) (pk : packet) (fl : flags)
+    (st1 : rstate) (fl1 : flags) (brk : bool) (o : outgoing),
+  handle_packet st id client pk fl = Ok (st1, fl1, brk) ->
+  slab_get (r_obufs st) id = Some o -> unsolicited o pk ->
+  keep st1 = keep (put_obuf st id o) /\ slab_get (r_obufs st1) id = Some o /\
+  (forall id', id' <> id -> slab_get (r_obufs st1) id' = slab_get (r_obufs st) id').
+Proof. exact handle_packet_unsolicited_keeps. Qed.
+
 Theorem c09_forward_within_slots : forall (st : rstate) (id : N) (rq : drequest) (st' : rstate) (rq' : drequest)
     (cs : consume_status),
   forward_device_data st id rq = Ok (st', rq', cs) ->
